@@ -141,12 +141,26 @@ def has_safe_repr(value: t.Any) -> bool:
         return True
 
     if type(value) in {tuple, list, set, frozenset}:
-        return all(has_safe_repr(v) for v in value)
+        return all(has_safe_repr(v) for v in value) and _has_repr(value)
 
     if type(value) is dict:  # noqa E721
-        return all(has_safe_repr(k) and has_safe_repr(v) for k, v in value.items())
+        return all(
+            has_safe_repr(k) and has_safe_repr(v) for k, v in value.items()
+        ) and _has_repr(value)
 
     return False
+
+
+def _has_repr(value: t.Any) -> bool:
+    """A container that holds an int beyond the limit for decimal string
+    conversion cannot be written out as a literal.
+    """
+    try:
+        repr(value)
+    except ValueError:
+        return False
+
+    return True
 
 
 def find_undeclared(nodes: t.Iterable[nodes.Node], names: t.Iterable[str]) -> set[str]:
